@@ -192,6 +192,23 @@ def enter (w : World) (origin obProg : Nat) (q k fio vio : Nat) : ApplyRes :=
   | none => .crash
   | some fl => if functionVisible origin fl then .call q k fio vio else .fail
 
+/-- the hit test of apply_low: `entry->id == progp->id_number && entry->oprogp == progp && !strcmp (entry->name, fun)` -/
+def cacheLookup (c : Cache) (ix id obProg : Nat) (name : NameKey) : Option CacheEntry :=
+  match c[ix]? with
+  | some (some e) => if e.id == id && e.oprogp == obProg && e.name == name then some e else none
+  | _ => none
+
+/-- the miss path of apply_low: search, store a positive entry when the function exists (whether or not this
+    caller may run it), a negative entry only when it does not exist -/
+def applyMiss (w : World) (c : Cache) (origin obProg id ix : Nat) (name : NameKey) : ApplyRes × Cache :=
+  match find w obProg name with
+  | .crash => (.crash, c)
+  | .found q k fio vio =>
+    (enter w origin obProg q k fio vio,
+     c.set ix (some { id := id, oprogp := obProg, name := name, progp := some (q, k, fio, vio) }))
+  | .none =>
+    (.fail, c.set ix (some { id := id, oprogp := obProg, name := name, progp := none }))
+
 /-- apply_low (fun, ob, num_arg) with `call_origin = origin`; `ptr` is the pointer value of `fun` (used for the
     hash only), `name` the shared string it denotes (used by strcmp and by find_function). -/
 def applyLow (w : World) (c : Cache) (origin obProg : Nat) (ptr : Nat) (name : NameKey) : ApplyRes × Cache :=
@@ -199,23 +216,12 @@ def applyLow (w : World) (c : Cache) (origin obProg : Nat) (ptr : Nat) (name : N
   | none => (.crash, c)
   | some P =>
     let ix := slotOf P.id ptr
-    let hit : Option CacheEntry :=
-      match c[ix]? with
-      | some (some e) => if e.id == P.id && e.oprogp == obProg && e.name == name then some e else none
-      | _ => none
-    match hit with
+    match cacheLookup c ix P.id obProg name with
     | some e =>
       match e.progp with
       | some (q, k, fio, vio) => (enter w origin obProg q k fio vio, c)
       | none => (.fail, c)
-    | none =>
-      match find w obProg name with
-      | .crash => (.crash, c)
-      | .found q k fio vio =>
-        (enter w origin obProg q k fio vio,
-         c.set ix (some { id := P.id, oprogp := obProg, name := name, progp := some (q, k, fio, vio) }))
-      | .none =>
-        (.fail, c.set ix (some { id := P.id, oprogp := obProg, name := name, progp := none }))
+    | none => applyMiss w c origin obProg P.id ix name
 
 /-! ### frames -/
 
